@@ -358,3 +358,41 @@ def correspond(run, name, cases, model_exe, c_exe, c_env=None, timeout=900):
                                         "replay_cmd": "echo '%s' | <leafdrv built from /repo>" % bad})
         co = co + ["CRASH"] * (len(cases) - len(co))
     return mo, co
+
+
+# --------------------------------------------------------------------------
+# the compiler and the command-line tools, rebuilt from /repo's working tree
+
+
+def build_repo_copy(dirs=("libasn1common", "libasn1parser", "libasn1fix", "libasn1print", "libasn1compiler", "asn1c")):
+    """copy /repo's working tree (with its build outputs, so only edited files
+    rebuild) into scratch and run make in the given sub-directories.
+    Returns the copy's root."""
+    scr = scratch()
+    root = os.path.join(scr, "repo")
+    if not os.path.exists(root):
+        rc, o = sh(["rsync", "-a", "--exclude", "tests", "--exclude", "doc", "--exclude", "examples", "--exclude", ".git",
+                    REPO.rstrip("/") + "/", root + "/"], timeout=600)
+        if rc != 0:
+            raise BuildError("rsync of /repo failed:\n" + o[-2000:])
+    for d in dirs:
+        stamp = os.path.join(root, d, ".a1v_built")
+        if os.path.exists(stamp):
+            continue
+        rc, o = sh("make -j%d CFLAGS='-g -O1 -D%s'" % (NCPU, GUARD), cwd=os.path.join(root, d), timeout=1200)
+        if rc != 0:
+            raise BuildError("make in %s failed:\n%s" % (d, o[-3000:]))
+        open(stamp, "w").write("ok\n")
+    return root
+
+
+def build_asn1c():
+    """returns (path of asn1c binary, path of skeletons dir) built from the working tree"""
+    root = build_repo_copy()
+    return os.path.join(root, "asn1c", "asn1c"), os.path.join(root, "skeletons")
+
+
+def build_tools():
+    """returns (unber, enber) binaries built from the working tree"""
+    root = build_repo_copy(dirs=("libasn1common", "libasn1parser", "libasn1fix", "libasn1print", "libasn1compiler", "asn1c", "asn1-tools"))
+    return (os.path.join(root, "asn1-tools", "unber", "unber"), os.path.join(root, "asn1-tools", "enber", "enber"))
